@@ -26,3 +26,4 @@ int __wrap_pthread_mutex_lock(pthread_mutex_t *m)
     }
     return __real_pthread_mutex_lock(m);
 }
+
